@@ -88,11 +88,18 @@ def level_rules(rules: list[dict], inherited: list[dict]) -> list[dict]:
     return loc + glo + inherited
 
 
-def child_level(r: dict, rules: list[dict], inherited: list[dict]):
+def child_level(r: dict, rules: list[dict], inherited: list[dict], row: str | None = None):
     glo = [x for x in rules if x["glob"] and not x["ign"]]
     if r["glob"]:
         return [], glo + inherited
-    return r["kids"], glo + inherited
+    kids = list(r["kids"])
+    if row is not None:
+        # the children rules of every local rule matching the block header apply below it (merged by
+        # _select_match), not only those of the first match
+        for o in rules:
+            if o is not r and not o["ign"] and not o["glob"] and o["kids"] and P._fits(o["pat"], row):
+                kids += [k for k in o["kids"] if all(k["pat"] != x["pat"] for x in kids)]
+    return kids, glo + inherited
 
 
 def gen_tree(rng: random.Random, rules: list[dict], inherited: list[dict], depth: int, density: float) -> dict:
@@ -109,7 +116,7 @@ def gen_tree(rng: random.Random, rules: list[dict], inherited: list[dict], depth
             if s is None or s[0] is not r or (id(s[0]), s[1]) in slots or row in t:
                 continue
             slots.add((id(s[0]), s[1]))
-            kids, inh = child_level(r, rules, inherited)
+            kids, inh = child_level(r, rules, inherited, row)
             t[row] = gen_tree(rng, kids, inh, depth + 1, density) if (kids or inh) and depth < 3 and rng.random() < 0.8 else {}
     if rng.random() < 0.15:
         t["unknown " + rng.choice(P.VAL)] = {} if rng.random() < 0.7 else {"unknown x": {}}
@@ -129,7 +136,7 @@ def mutate_tree(rng: random.Random, t: dict, rules: list[dict], inherited: list[
                 out.append((row, kids))
             continue
         r, key = s
-        ck, inh = child_level(r, rules, inherited)
+        ck, inh = child_level(r, rules, inherited, row)
         x = rng.random()
         if x < rate * 0.35:
             continue                                            # slot removed
@@ -151,7 +158,7 @@ def mutate_tree(rng: random.Random, t: dict, rules: list[dict], inherited: list[
         if s is None or s[0] is not r or (id(r), s[1]) in slots:
             continue
         slots.add((id(r), s[1]))
-        ck, inh = child_level(r, rules, inherited)
+        ck, inh = child_level(r, rules, inherited, row)
         out.append((row, gen_tree(rng, ck, inh, depth + 1, 0.6) if (ck or inh) and depth < 3 else {}))
     if rng.random() < rate * 0.5:
         rng.shuffle(out)
